@@ -347,7 +347,14 @@ pub fn plan(tier: &str) -> Vec<crate::crash::SubRun> {
         v.push(SubRun { cfg: c(10_000, false), prefix: shared.clone(), alphabet: ops::alphabet("crash"), depth: 2, nest: 0, label: "shared-prefix" });
         v.push(SubRun { cfg: c(2, true), prefix: vec![], alphabet: ops::alphabet("crash"), depth: 2, nest: 0, label: "async" });
         v.push(SubRun { cfg: c(10_000, false), prefix: vec![], alphabet: crate::crash::big_alphabet(), depth: 2, nest: 0, label: "big records/blobs" });
+        // a failed rollover checkpoint leaves two un-checkpointed segments; with 9 / 19 earlier ops their ids are 9 and 10
+        v.push(SubRun { cfg: c(1, false), prefix: crate::crash::long_prefix(9), alphabet: ops::alphabet("crash"), depth: 3, nest: 0, label: "segment ids 9 -> 10 (N=1)" });
+        v.push(SubRun { cfg: c(2, false), prefix: crate::crash::long_prefix(19), alphabet: ops::alphabet("crash"), depth: 3, nest: 0, label: "segment ids 9 -> 10 (N=2)" });
     } else {
+        for n in [1u64, 2, 3] {
+            v.push(SubRun { cfg: c(n, false), prefix: crate::crash::long_prefix(10 * n as usize - 1), alphabet: ops::alphabet("crash"), depth: 4, nest: 0, label: "segment ids 9 -> 10" });
+            v.push(SubRun { cfg: c(n, false), prefix: crate::crash::long_prefix(100 * n as usize - 1), alphabet: ops::alphabet("crash"), depth: 3, nest: 0, label: "segment ids 99 -> 100" });
+        }
         for n in [1, 2, 3, 10_000] {
             v.push(SubRun { cfg: c(n, false), prefix: vec![], alphabet: ops::alphabet("crash"), depth: 4, nest: 0, label: "fresh d4" });
             v.push(SubRun { cfg: c(n, true), prefix: vec![], alphabet: ops::alphabet("crash"), depth: 3, nest: 0, label: "async d3" });
